@@ -21,6 +21,26 @@ CHECKS = {
     },
 }
 
+CHECKS["C20"] = {
+    "replay_test": "TestC20Replay",
+    "runs": [
+        {"test": "TestC20Ring", "shards_quick": 4, "checks_quick": 50000, "shards_thorough": 16, "checks_thorough": 1000000},
+        {"test": "TestC20Store", "shards_quick": 2, "checks_quick": 30000, "shards_thorough": 4, "checks_thorough": 500000},
+        {"test": "TestC20Stream", "shards_quick": 2, "checks_quick": 10000, "shards_thorough": 4, "checks_thorough": 200000},
+        {"test": "TestC20StreamConcurrent", "shards_quick": 4, "checks_quick": 15000, "shards_thorough": 16, "checks_thorough": 200000},
+    ],
+    "fuzz": [{"target": "FuzzC20Ring", "seconds": 60}],
+    "rule": "op scripts (add / resize / query(start,count) / recent(count)) on ring buffers of capacity 1-12 with start and count drawn around lowest id, head, last id, capacity, 0 and MaxUint64, "
+            "compared with a reference slice; event store scripts (store / collect / set size); stream scripts with subscribers created and closed between publications; streams created "
+            "while a concurrent publisher is running. non-trivial = a query inside the available range against a full or resized buffer with start != lowest id, a collect of a full or "
+            "resized store, a subscriber created after events were published (while publishing is in progress for the concurrent variant); distinct = hash of the script",
+    "assumptions": COMMON_ASSUMPTIONS + ["the concurrent streaming variant depends on the Go scheduler: its oracle is a validity predicate (gap-free, duplicate-free, ordered, inside the requested window) "
+                                         "and a failure is re-run up to 200 times from its replay file",
+                                         "slow consumer eviction (1000 undelivered events) is outside the generator"],
+    "timeout_quick": 600,
+    "timeout_thorough": 3000,
+}
+
 WORLD_ASSUMPTIONS = COMMON_ASSUMPTIONS + [
     "interleavings are explored at the granularity of one whole RM event handler / one scheduling cycle (finer interleavings belong to C14)",
     "timers are fired deterministically through hooks, only when the real timer is armed; ask age is 0 or 3600 s",
@@ -84,6 +104,12 @@ META = {
         "level_text": "generated-input search against a math/big reference; no counterexample in N cases, absence not established",
         "level_note": "trusts the reference model in props/ and the Go toolchain",
         "technique": "property-based testing (rapid) against a big-integer reference model",
+    },
+    "C20": {
+        "level_text": "model-based property testing of the event ring buffer, event store and streaming against reference models (slice truncated to capacity); "
+                      "no counterexample in N generated scripts, absence not established",
+        "level_note": "trusts the reference models in props/c20_test.go, the verif constructor hooks in pkg/events and the Go toolchain; stream timing is only sampled",
+        "technique": "model-based property testing (rapid) against a reference ring buffer; coverage-guided fuzzing of op scripts in the thorough tier",
     },
     "C01": _world_meta("a per-decision fit/schedulable/reservation/predicate oracle on the pre-step node view and node ledger equalities after every step"),
     "C02": _world_meta("a per-decision queue-maximum oracle along the queue path and the effective-limit ordering after every step"),
